@@ -149,6 +149,26 @@ pub fn metadata_sample(variant: u8) -> (StreamMetadata, V) {
         md.video_frame_rate = Some(29.97);
         props.push(("framerate", num(29.97f32 as f64)));
     }
+    if variant & 16 != 0 {
+        // every field, with values that do not survive rounding, narrowing to f32/u16/i32, or text normalisation
+        let fr: f32 = if variant & 32 != 0 { 0.0004 } else { 30000.0 / 1001.0 };
+        md.video_width = Some(u32::MAX);
+        md.video_height = Some(0);
+        md.video_codec_id = Some(7);
+        md.video_frame_rate = Some(fr);
+        md.video_bitrate_kbps = Some(16_777_217);
+        md.audio_codec_id = Some(10);
+        md.audio_bitrate_kbps = Some(0x8000_0001);
+        md.audio_sample_rate = Some(44_100);
+        md.audio_channels = Some(65_537);
+        md.audio_is_stereo = Some(false);
+        md.encoder = Some("Enc \u{e9}\u{0} ".to_string());
+        props = vec![
+            ("width", num(u32::MAX as f64)), ("height", num(0.0)), ("videocodecid", num(7.0)), ("framerate", num(fr as f64)), ("videodatarate", num(16_777_217.0)),
+            ("audiocodecid", num(10.0)), ("audiodatarate", num(0x8000_0001u32 as f64)), ("audiosamplerate", num(44_100.0)), ("audiochannels", num(65_537.0)),
+            ("stereo", V::Bool(false)), ("encoder", s("Enc \u{e9}\u{0} ")),
+        ];
+    }
     (md, obj(props))
 }
 
